@@ -22,6 +22,7 @@ def configs(tier):
             for tf in ("none", "both"):
                 out.append(dict(net="pinn", eq_type=eq_type, dim_x=dim_x, n_out=n_out, tf=tf, hidden=1))
         out.append(dict(net="pinn_shared", eq_type=eq_type, dim_x=dim_x, n_out=3, tf="both", hidden=1))
+        out.append(dict(net="pinn_shared", eq_type=eq_type, dim_x=dim_x, n_out=3, tf="both", hidden=1, int_slice=True))
     if tier == "thorough":
         out.append(dict(net="pinn", eq_type="nonstatio_PDE", dim_x=2, n_out=2, tf="both", hidden=2))
     for eq_type, d in (("statio_PDE", 1), ("statio_PDE", 2), ("nonstatio_PDE", 2)) + ((("statio_PDE", 3), ("nonstatio_PDE", 3)) if tier == "thorough" else (("nonstatio_PDE", 3),)):
@@ -92,7 +93,8 @@ def run(cfg, R):
             ot = lambda i, o, p: o * p.eq_params["beta"] + i[0]
         else:
             it = ot = None
-        shared = (jnp.s_[0:1], jnp.s_[1:3]) if net == "pinn_shared" else None
+        int_slice = cfg.get("int_slice", False)
+        shared = ((jnp.s_[0:2], jnp.s_[2]) if int_slice else (jnp.s_[0:1], jnp.s_[1:3])) if net == "pinn_shared" else None
         us = create_PINN(key, eqx_list, eq_type, dim_x, input_transform=it, output_transform=ot, shared_pinn_outputs=shared)
         ulist = us if shared else [us]
         params = Params(nn_params=ulist[0].init_params(), eq_params={"alpha": jnp.array(0.7), "beta": jnp.array(1.3)})
@@ -110,7 +112,7 @@ def run(cfg, R):
             if tf == "none":
                 extra["bare"] = call(ulist[0], t, x, params.nn_params)   # bare network parameters
             return outs, extra
-        name = f"{net}/{eq_type}/dx{dim_x}/out{n_out}/{tf}/h{hidden}"
+        name = f"{net}/{eq_type}/dx{dim_x}/out{n_out}/{tf}/h{hidden}" + ("/int-slice" if cfg.get("int_slice") else "")
         tr = R.trace(name, f, (params, t, x), key=f"{net}:raises")
         if tr is None: return
 
@@ -132,7 +134,7 @@ def run(cfg, R):
             outs, extra = O
             full = oracle(A, variant)
             G = []
-            slices = [slice(0, 1), slice(1, 3)] if shared else [slice(None)]
+            slices = ([slice(0, 2), slice(2, 3)] if int_slice else [slice(0, 1), slice(1, 3)]) if shared else [slice(None)]
             for k, (o, sl) in enumerate(zip(outs, slices)):
                 want = full[sl]
                 G.append((f"network {k}: output has a trailing component axis of the declared size", const(tuple(o.shape) == (len(want),), "Bool")))
